@@ -6,6 +6,7 @@ import (
 	"io"
 	"reflect"
 	"runtime"
+	"testing"
 )
 
 // Native side of C30c (replay build only). The real encoding/json produces the results, so they
@@ -44,4 +45,47 @@ func vkDecode(b []byte) (any, bool) {
 		return nil, false
 	}
 	return v, true
+}
+
+// TestVerifC30cNativeSweep (spec "native_checks"): on the real encoding/json, for every combination
+// of request kind, storage class, result form, blob_array, entry point and column count the harness
+// can choose, with concrete payloads (integer extremes, text that encoding/json escapes, blob bytes
+// 0x00/0xff): the encoded result decodes to the expected response object the harness builds (so the
+// native oracle and the documented format agree on the unchanged code), and a result is not changed
+// by the next encode.
+func TestVerifC30cNativeSweep(t *testing.T) {
+	ints := []int64{0, -1, 9223372036854775807, -9223372036854775808, 9007199254740993}
+	texts := []string{"", "abc", `<a href="x">&\ '`}
+	blobs := [][]byte{{}, {0x00, 0xff}, {'"', '\n', 0x80}}
+	n := 0
+	var prev *vkResult
+	for kind := 0; kind < vkNKinds; kind++ {
+		for vtype := 0; vtype < vkNTypes; vtype++ {
+			for flags := 0; flags < 16; flags++ {
+				for v := 0; v < 3; v++ {
+					p := &vkPayload{kind: kind, vtype: vtype, assoc: flags&1 != 0, blobArr: flags&2 != 0, indent: flags&4 != 0, cols: 1 + flags>>3,
+						i: ints[(v+kind)%len(ints)], i2: ints[(v+vtype+1)%len(ints)], s: texts[v], y: blobs[v], f: vkReals[v], b: v == 1,
+						lastID: ints[(v+2)%len(ints)], nAff: ints[(v+3)%len(ints)]}
+					if kind == vkArray {
+						if vtype != vkBlob || flags != 2 {
+							continue
+						}
+					}
+					r := vkRun(p)
+					if r.err != nil {
+						t.Fatalf("%+v: %v", *p, r.err)
+					}
+					if !vkSame(r.out, r.ref) {
+						t.Fatalf("%+v: result %s does not decode to the expected response %s", *p, r.out, r.ref)
+					}
+					if prev != nil && (!bytes.Equal(prev.out, prev.snap) || !vkSame(prev.out, prev.ref)) {
+						t.Fatalf("%+v: the previous result was changed by this encode: was %s, is %s", *p, prev.snap, prev.out)
+					}
+					prev = r
+					n++
+				}
+			}
+		}
+	}
+	t.Logf("%d encodes", n)
 }
